@@ -306,13 +306,37 @@ package zerolog
 //@   ensures e != nil ==> same(e.buf, old(e.buf)) || (mode(e.buf) == OBJ_NEXT && len(e.buf) > old(len(e.buf)))
 //@   ensures res == e
 
+//@ typeinv encoding/json.RawMessage wholevalue
+
 //@ func appendFields(dst, fields, stack) res
 //@   props C01 C02
 //@   arith int
 //@   flag noovf
+//@   flag replay fields
 //@   requires objbuf(dst)
 //@   ensures objbuf(res) && stk(res) == stk(dst) && prefix(res, dst)
 //@   ensures same(res, dst) || (mode(res) == OBJ_NEXT && len(res) > len(dst))
+//@   loop 2:
+//@     invariant 0 <= rangeindex + 1 && rangeindex + 1 <= rangelen
+//@     invariant objbuf(dst) && stk(dst) == stk(dst0) && prefix(dst, dst0) && (same(dst, dst0) || (mode(dst) == OBJ_NEXT && len(dst) > len(dst0)))
+
+//@ func appendFieldList(dst, kvList, stack) res
+//@   props C01 C02
+//@   arith int
+//@   flag noovf
+//@   flag replay fields
+//@   requires objbuf(dst) && len(kvList) % 2 == 0
+//@   ensures objbuf(res) && stk(res) == stk(dst) && prefix(res, dst)
+//@   ensures same(res, dst) || (mode(res) == OBJ_NEXT && len(res) > len(dst))
+//@   loop 1:
+//@     invariant 0 <= i && i <= len(kvList) && i % 2 == 0
+//@     invariant objbuf(dst) && stk(dst) == stk(dst0) && prefix(dst, dst0) && (same(dst, dst0) || (mode(dst) == OBJ_NEXT && len(dst) > len(dst0)))
+//@   loop 2:
+//@     invariant 0 <= rangeindex + 1 && rangeindex + 1 <= rangelen
+//@     invariant lex(dst) == 0 && stk(dst) == pushstk(AFTER_KEY, stk(dst0)) && prefix(dst, dst0) && len(dst) > len(dst0)
+//@     invariant rangeindex + 1 == 0 ==> mode(dst) == ARR_FIRST
+//@     invariant 0 < rangeindex + 1 && rangeindex + 1 < rangelen ==> mode(dst) == ARR_COMMA
+//@     invariant 0 < rangeindex + 1 && rangeindex + 1 == rangelen ==> mode(dst) == ARR_NEXT
 
 //@ func (*Array).Object(a, obj) res
 //@   flag frontend
